@@ -89,6 +89,11 @@ def render(unit, specdir, outdir):
             raise L.LiftError("lift '%s' of unit %s is not used by template %s" % (k, unit.name, unit.template))
     os.makedirs(outdir, exist_ok=True)
     path = os.path.join(outdir, unit.name + ".c")
+    lines = text.split("\n")
+    for i, ln in enumerate(lines):
+        if ln.startswith('#line 1 "vx_after_'):
+            lines[i] = '#line %d "%s"' % (i + 2, path)
+    text = "\n".join(lines)
     with open(path, "w") as f:
         f.write(text)
     info["template"] = tpl
